@@ -68,7 +68,7 @@ fn cfg(tier: Tier) -> ProgCfg {
             damage_bucket: 4,
             foreign: 1,
         },
-        wmix: WriteMix { bad_decls: true, meta: true, by_hash: true },
+        wmix: WriteMix { bad_decls: true, meta: true, by_hash: true, rich_matching: true, interfere: true },
         sizes: SizeMix::Boundary,
         keys: (1, 5),
         blobs: (1, 4),
@@ -196,14 +196,14 @@ impl Engine for C20 {
     fn assumptions(&self) -> Vec<String> {
         vec![
             "integrity ARGUMENTS are always well-formed (real digests, possibly of other data), as the property assumes; hostile integrity strings appear only on disk".into(),
-            "'never hangs' is decided by a watchdog (120 s per case in the quick tier), which can only bound".into(),
+            "'never hangs' is decided by a watchdog (40 s per case in the quick tier, 120 s in the thorough tier; a hit is re-run once from its replay file with a 3x limit), which can only bound".into(),
         ]
     }
     fn random_cases(&self, tier: Tier) -> u32 {
         tier.pick(3000, 80000)
     }
     fn case_timeout_s(&self, tier: Tier) -> u64 {
-        tier.pick(120, 300)
+        tier.pick(40, 120)
     }
     fn strategy(&self, tier: Tier) -> BoxedStrategy<Case> {
         let c13e = c13::C13;
